@@ -302,6 +302,12 @@ func (f *Formatter) walkArgumentList(s ast.SelectionSet) map[string]string {
 					continue
 				}
 
+				if typeDef.Kind == ast.Scalar {
+					// a list or object literal for a custom scalar: nothing says what is expected inside
+					walkUntypedChildren(a.Value.Children, res)
+					continue
+				}
+
 				for k, v := range f.walkChildrenArgumentList(typeDef, a.Value.Children) {
 					setVariableType(res, k, v)
 				}
@@ -323,6 +329,20 @@ func (f *Formatter) walkArgumentList(s ast.SelectionSet) map[string]string {
 	return res
 }
 
+// walkUntypedChildren collects the variables used inside the literal of a custom scalar. The schema does not
+// say what is expected at such a position, the variable is declared the way the client declared it
+func walkUntypedChildren(childs ast.ChildValueList, res map[string]string) {
+	for _, ch := range childs {
+		if ch.Value == nil {
+			continue
+		}
+		if ch.Value.Kind == ast.Variable && ch.Value.VariableDefinition != nil {
+			setVariableType(res, ch.Value.Raw, ch.Value.VariableDefinition.Type.String())
+		}
+		walkUntypedChildren(ch.Value.Children, res)
+	}
+}
+
 func (f *Formatter) walkChildrenArgumentList(typeDef *ast.Definition, childs ast.ChildValueList) map[string]string {
 	res := make(map[string]string)
 	if f.schema == nil {
@@ -331,6 +351,11 @@ func (f *Formatter) walkChildrenArgumentList(typeDef *ast.Definition, childs ast
 
 	for _, ch := range childs {
 		if ch.Value == nil {
+			continue
+		}
+
+		if len(ch.Value.Children) > 0 && (ch.Value.Definition == nil || ch.Value.Definition.Kind == ast.Scalar) {
+			walkUntypedChildren(ch.Value.Children, res)
 			continue
 		}
 
